@@ -401,6 +401,11 @@ def ref_view(art, canonical=False):
             else:
                 raise ValueError(s['t'])
         v.entries.append((sg, signer, subj))
+        if s['t'] == 'subkey' and sg.type == rsigs.T_SUBKEY_BIND:
+            # the embedded primary-key binding (0x19) is made by the subkey over the same subject
+            for e in sg.sub(rsigs.SP_EMBEDDED):
+                es = rsigs.parse_sig(e.body)
+                v.entries.append((es, comp[0].key, subj))
     except (WireError, rarmor.ArmorError, ValueError, IndexError, KeyError) as e:
         v.error = '%s: %s' % (type(e).__name__, e)
     return v
